@@ -78,3 +78,75 @@ func c11RecvAck(maxK int) {
 		verifAssert(s.frames[0].frameNo == uint32(s.ackNo), "C11/C08: first held frame is the next one to acknowledge")
 	}
 }
+
+// Reliable.receive on ANY frame in ANY tube state: returns without panicking.
+//
+//verif:prop C11
+//verif:bounds tube state over all 8 values; sender with 0..2 unacknowledged frames (invariant), receiver window start symbolic with 0..1 queued fragment; frame: every header field symbolic (all 64 flag combinations, any ack / frame number), data of 0, 1 or 3 bytes
+//verif:cover returned
+//verif:unwind 40
+//verif:timeout 3000
+//verif:tier thorough
+func VH_C11_reliable_receive_any_frame_any_state_2frames() { c11ReceiveAny(2, true) }
+
+//verif:prop C11
+//verif:bounds as the 2-frame variant restricted to tube states {initiated, finWait1, lastAck, closed}, 0..1 unacknowledged frames, no queued fragment, data of 0 or 1 bytes
+//verif:cover returned
+//verif:unwind 40
+//verif:timeout 900
+//verif:tier quick
+func VH_C11_reliable_receive_any_frame_any_state() { c11ReceiveAny(1, false) }
+
+func c11ReceiveAny(maxK int, full bool) {
+	log := logrus.NewEntry(logrus.New())
+	k := verifPick("frames", 0, 1, 2)
+	verifAssume(k <= maxK)
+	// congestion state concrete here (its arithmetic is explored by VH_C11_recvAck_any_number)
+	snd := newSender(log)
+	ack := verifU64("sender-ackNo")
+	verifAssume(ack >= 1 && ack < 1<<33)
+	snd.ackNo, snd.frameNo = ack, uint32(ack)+uint32(k)
+	for i := 0; i < k; i++ {
+		snd.frames = append(snd.frames, struct {
+			*frame
+			time.Time
+		}{&frame{frameNo: uint32(ack) + uint32(i), dataLength: 1, data: []byte{7}}, time.Time{}})
+	}
+	r := &Reliable{id: verifU8("tube-id"), sender: snd, recvWindow: newReceiver(log), closed: make(chan struct{}), initRecv: make(chan struct{}), initDone: make(chan struct{}), sendDone: make(chan struct{}), sendQueue: make(chan []byte, 64), prioritySendQueue: make(chan []byte, 64), log: log}
+	close(r.sendDone)
+	r.sender.closed.Store(false)
+	st := verifPick("tube-state", int(created), int(initiated), int(closeWait), int(lastAck), int(finWait1), int(finWait2), int(closing), int(closed))
+	verifAssume(full || st == int(initiated) || st == int(finWait1) || st == int(lastAck) || st == int(closed))
+	r.tubeState = state(st)
+	ws := verifU64("windowStart")
+	verifAssume(ws >= 1 && ws < 1<<40)
+	r.recvWindow.windowStart, r.recvWindow.ackNo = ws, ws-1
+	if full && verifBool("queued-fragment") {
+		r.recvWindow.fragments = append(r.recvWindow.fragments, &pqItem{value: []byte{9}, priority: ws + 2})
+	}
+	n := verifPick("datalen", 0, 1, 3)
+	verifAssume(full || n <= 1)
+	f := &frame{ackNo: verifU32("ackNo"), frameNo: verifU32("frameNo"), dataLength: uint16(n), flags: metaToFlags(verifU8("flags")), tubeID: r.id, data: verifBytes("data", n)}
+	_ = r.receive(f)
+	verifCover("returned")
+}
+
+// receiveInitiatePkt on any initiate frame in any tube state.
+//
+//verif:prop C11
+//verif:bounds tube state over all 8 values; initiate frame with symbolic flags, type, frame number and 0..3 data bytes
+//verif:cover returned
+//verif:timeout 600
+func VH_C11_reliable_receive_initiate_any_frame_any_state() {
+	log := logrus.NewEntry(logrus.New())
+	r := &Reliable{id: verifU8("tube-id"), sender: newSender(log), recvWindow: newReceiver(log), closed: make(chan struct{}), initRecv: make(chan struct{}), initDone: make(chan struct{}), sendDone: make(chan struct{}), sendQueue: make(chan []byte, 64), prioritySendQueue: make(chan []byte, 64), log: log}
+	close(r.sendDone)
+	r.tubeState = state(verifPick("tube-state", int(created), int(initiated), int(closeWait), int(lastAck), int(finWait1), int(finWait2), int(closing), int(closed)))
+	if r.tubeState != created {
+		close(r.initRecv) // invariant: the initiation signal is published exactly when the tube leaves "created"
+	}
+	n := verifPick("datalen", 0, 3)
+	f := &initiateFrame{frameNo: verifU32("frameNo"), tubeID: r.id, tubeType: TubeType(verifU8("type")), data: verifBytes("data", n), dataLength: uint16(n), flags: metaToFlags(verifU8("flags"))}
+	_ = r.receiveInitiatePkt(f)
+	verifCover("returned")
+}
